@@ -301,6 +301,8 @@ class PathSym:
         def bind(t: ast.AST, v: T.Optional[ast.AST]) -> None:
             if isinstance(t, ast.Name):
                 d.setdefault(t.id, []).append(v)
+            elif isinstance(t, ast.Attribute) and isinstance(t.value, ast.Name) and t.value.id == 'self':
+                d.setdefault('self.' + t.attr, []).append(v)      # attribute of self assigned in this function
             elif isinstance(t, (ast.Tuple, ast.List)):
                 if isinstance(v, (ast.Tuple, ast.List)) and len(v.elts) == len(t.elts):
                     for a, b in zip(t.elts, v.elts):
@@ -540,6 +542,15 @@ class PathSym:
                     v = rc[0].assign_value(last, rc[1])
                     if isinstance(v, ast.Constant) and isinstance(v.value, str):
                         return frozenset([const(v.value)])
+                # self.x assigned in this very function: the values it is given here (flow-insensitive, like a local)
+                if head == 'self' and ('attr:' + c) not in busy:
+                    adefs = self.local_defs(ref.node).get(c, [])
+                    if adefs and all(v is not None for v in adefs):
+                        acc: T.Set[Term] = set()
+                        for v in adefs:
+                            acc |= self._res(ref, v, env, depth, busy | {'attr:' + c})     # type: ignore[arg-type]
+                        if acc:
+                            return frozenset(acc)
                 return frozenset([opaque(c)])
             return frozenset([opaque(norm(e))])
         if isinstance(e, ast.BinOp) and isinstance(e.op, ast.Add):
